@@ -78,7 +78,7 @@ impl ExcHandler {
     #[verifier::external_body]
     fn has_catch_block(&self) -> bool { unimplemented!() }
 }
-//@struct file=yarel/src/object.rs name=ObjFiber keepfields=caller,stack,frames,return_ip,return_value,error_ip,handling_exception,pending_exception,return_handler_count,exc_handlers map "*const u8" => "usize" map "Stack<Value, STACK_MAX>" => "StackS" addfield "pub ghost closed_from: int" addfield "pub ghost has_handler: bool" addfield "pub ghost height: int"
+//@struct file=yarel/src/object.rs name=ObjFiber keepfields=caller,stack,frames,return_ip,return_value,error_ip,handling_exception,pending_exception,return_handler_count,return_frame_count,exc_handlers map "*const u8" => "usize" map "Stack<Value, STACK_MAX>" => "StackS" addfield "pub ghost closed_from: int" addfield "pub ghost has_handler: bool" addfield "pub ghost height: int"
 impl ObjFiber {
     //@fn file=yarel/src/object.rs path=ObjFiber::has_finished ret=r
     //@  ensures r == (self.frames@.len() == 0)
